@@ -282,52 +282,56 @@ def _pins(common, **ranges):
 # sub-families of the 3-variable / 4-production family (heads pinned)
 V3_CONFLICT = dict(p=4, l0=1, a0=1, h1=0, h2=1, l2=0, h3=1)      # S -> A | ?,  A -> eps | ?
 V3_CHAIN = dict(p=4, l0=2, a0=1, h1=1, l1=1, h2=2, l2=0, h3=2)   # S -> A ?,  A -> ?,  B -> eps | ?
-# sub-family with bodies of length 3
+# sub-families with bodies of length 3
 B3_SEQ = dict(p=3, l0=3, h1=1, l1=0, h2=1, l2=1)                  # S -> ? ? ?,  A -> eps | ?
-
-
+B3_REC = dict(p=3, l0=0, h1=0, l1=3, h2=1, l2=1)                  # S -> eps | ? ? ?,  A -> ?
 # word classes used to split heavy parse shards (pins are equalities)
 WSPLIT = [dict(wlen=0), dict(wlen=1), dict(wlen=2), dict(wlen=3, w0=0), dict(wlen=3, w0=1)]
+ALL4 = [0, 1, 2, 3]
 
 
 def _shards_sets(tier):
-    sh = [dict(p=1, mode=0)] + _pins(dict(p=2, mode=0), l0=[0, 1, 2])
+    sh = [dict(p=1, mode=0)] + _pins(dict(p=2, mode=0), l0=[0, 1]) + _pins(dict(p=2, mode=0, l0=2), a0=ALL4)
     if tier == "quick":
-        sh += _pins(dict(p=3, mode=0, l0=0, h1=0), l1=[1, 2])
-        sh += _pins(dict(p=3, mode=0, l0=1, a0=1, h1=0), l1=[1, 2])
-        sh += _pins(dict(p=3, l0=1, a0=1, h1=1), mode=[0, 6])
+        sh += [dict(p=3, mode=0, l0=0, h1=0, l1=1)] + _pins(dict(p=3, mode=0, l0=0, h1=0, l1=2), a1=ALL4)
+        sh += [dict(p=3, mode=0, l0=1, a0=1, h1=0, l1=1)] + _pins(dict(p=3, mode=0, l0=1, a0=1, h1=0, l1=2), a1=ALL4)
+        sh += _pins(dict(p=3, l0=1, a0=1, h1=1), mode=[0, 6], l1=[0, 1, 2])
         return sh
     for mode in (0, 6):
         sh += _pins(dict(p=3, mode=mode, l0=0), h1=[0, 1])
-        sh += _pins(dict(p=3, mode=mode, l0=1), a0=[0, 1, 2, 3], h1=[0, 1])
-        sh += _pins(dict(p=3, mode=mode, l0=2), a0=[0, 1, 2, 3], h1=[0, 1])
+        sh += _pins(dict(p=3, mode=mode, l0=1), a0=ALL4, h1=[0, 1])
+        sh += _pins(dict(p=3, mode=mode, l0=2), a0=ALL4, h1=[0, 1])
     return sh
 
 
 def _shards_sets_v3(tier):
     if tier == "quick":
-        return [dict(V3_CONFLICT, mode=0, l1=1), dict(V3_CONFLICT, mode=0, l1=2, a1=3), dict(V3_CHAIN, mode=0, l3=1)]
+        return [dict(V3_CONFLICT, mode=0, l1=1)] + _pins(dict(V3_CONFLICT, mode=0, l1=2, a1=3), l3=[1, 2]) \
+            + [dict(V3_CHAIN, mode=0, l3=1)]
     return _pins(dict(V3_CONFLICT, l1=1), mode=[0, 6]) + _pins(dict(V3_CONFLICT, l1=2), mode=[0, 6], a1=[0, 1, 2, 3, 4]) \
         + _pins(dict(V3_CHAIN), mode=[0, 6], l3=[1, 2])
 
 
 def _shards_sets_b3(tier):
     if tier == "quick":
-        return _pins(dict(B3_SEQ, mode=0), a0=[1, 2])
-    return _pins(dict(B3_SEQ), mode=[0, 6], a0=[0, 1, 2, 3])
+        return _pins(dict(B3_SEQ, mode=0), a0=[1, 2]) + [dict(B3_REC, mode=0, a1=1)]
+    return _pins(dict(B3_SEQ), mode=[0, 6], a0=ALL4) + _pins(dict(B3_REC), mode=[0, 6], a1=ALL4)
 
 
 def _shards_parse(tier):
     sh = [dict(p=1, mode=0)] + _pins(dict(p=2, mode=0), l0=[0, 1])
     if tier == "quick":
-        sh += _pins(dict(p=2, mode=0, l0=2), a0=[1, 2, 3])      # a0=0 (S -> S ? first): nothing is LL(1)
-        sh += _pins(dict(p=3, mode=0, l0=1, a0=1, h1=0, l1=1), a1=[2, 3])
-        sh += _pins(dict(p=3, mode=0, l0=1, a0=1, h1=0, l1=2), a1=[1, 2])
+        # first production S -> x y: x = A (then only a second production with head A gives LL(1) grammars) or
+        # x = a (x = b is symmetric, x = S never LL(1))
+        sh += _pins(dict(p=2, mode=0, l0=2, a0=1, h1=1), l1=[0, 1, 2]) + _pins(dict(p=2, mode=0, l0=2, a0=2), h1=[0, 1])
+        # p = 3, smallest production S -> A
+        sh += [dict(p=3, mode=0, l0=1, a0=1, h1=0, l1=1, a1=2), dict(p=3, mode=0, l0=1, a0=1, h1=0, l1=2, a1=1)]
+        sh += _pins(dict(p=3, mode=0, l0=1, a0=1, h1=0, l1=2, a1=2, h2=1), l2=[0, 1, 2])
         sh += _pins(dict(p=3, mode=0, l0=1, a0=1, h1=1), l1=[0, 1, 2])
         return sh
-    sh += _pins(dict(p=2, mode=0, l0=2), a0=[0, 1, 2, 3])
-    for g in _pins(dict(p=3, mode=0, l0=0), h1=[0, 1]) + _pins(dict(p=3, mode=0, l0=1), a0=[0, 1, 2, 3], h1=[0, 1]) \
-            + _pins(dict(p=3, mode=0, l0=2), a0=[0, 1, 2, 3], h1=[0, 1]):
+    sh += _pins(dict(p=2, mode=0, l0=2), a0=ALL4)
+    for g in _pins(dict(p=3, mode=0, l0=0), h1=[0, 1]) + _pins(dict(p=3, mode=0, l0=1), a0=ALL4, h1=[0, 1]) \
+            + _pins(dict(p=3, mode=0, l0=2), a0=ALL4, h1=[0, 1]):
         heavy = (g["l0"] == 2 and g["a0"] != 0) or (g["l0"] == 0 and g["h1"] == 0) or \
             (g["l0"] == 1 and g["a0"] == 1 and g["h1"] == 0)
         sh += [dict(g, **ws) for ws in WSPLIT] if heavy else [g]
@@ -336,14 +340,14 @@ def _shards_parse(tier):
 
 def _shards_parse_v3(tier):
     if tier == "quick":
-        return [dict(V3_CHAIN, mode=0, l3=1)]
+        return _pins(dict(V3_CHAIN, mode=0, l3=1), a1=[2, 3])      # A -> B | a
     return [dict(V3_CHAIN, mode=0, l3=1)] + [dict(V3_CHAIN, mode=0, l3=2, **ws) for ws in WSPLIT]
 
 
 def _shards_parse_b3(tier):
     if tier == "quick":
-        return _pins(dict(B3_SEQ, mode=0), a0=[1])
-    return _pins(dict(B3_SEQ, mode=0), a0=[1, 2, 3])
+        return [dict(B3_SEQ, mode=0, a0=1), dict(B3_REC, mode=0, a1=1, b1=0)]      # S -> A ? ? ; S -> eps | A S ?
+    return _pins(dict(B3_SEQ, mode=0), a0=[1, 2, 3]) + _pins(dict(B3_REC, mode=0), a1=[1, 2, 3])
 
 
 FUNCS = ["LLOneParser.get_first_set", "LLOneParser.get_follow_set", "LLOneParser.get_llone_parsing_table",
